@@ -98,9 +98,11 @@ def run(ctx):
     # option handling: scalar vs per-dimension, inconsistent lengths, history independence of the option arrays
     for t in range(20 if quick else 200):
         d = int(rng.integers(1, 5))
-        n = int(rng.integers(2, 40))
+        n = int(rng.integers(2, 40)) if t % 3 else int(rng.choice([65, 100, 129, 200, 255, 300]))
         a, b = BOXES[int(rng.integers(len(BOXES)))]
         X = rng.uniform(a - 0.2 * (b - a), b + 0.2 * (b - a), size=(7, d))
+        if n > 40:
+            X[0], X[1] = a, b              # both ends of the box: the largest indices are used
         for kind in ('uni', 'cheb'):
             i_s = teneva.poi_to_ind(X, a, b, n, kind)
             n_arr = np.array([n] * d)
@@ -115,6 +117,21 @@ def run(ctx):
             P = teneva.ind_to_poi(i_s, a, b, n, kind)
             P1 = np.array([teneva.ind_to_poi(i, [a] * d, [b] * d, [n] * d, kind) for i in i_s])
             ctx.check(np.allclose(P, P1, rtol=0, atol=0) and P.min() >= a - 1e-9 * abs(b - a) and P.max() <= b + 1e-9 * abs(b - a), 'ind_to_poi:options', 'single / batch disagree or points outside the box')
+            # an index is an index in whatever integer type it is stored
+            for dt in (np.uint8, np.int8, np.int16, np.uint16, np.int32):
+                if i_s.max() <= np.iinfo(dt).max:
+                    Pd = teneva.ind_to_poi(i_s.astype(dt), a, b, n, kind)
+                    ctx.check(np.array_equal(Pd, P), 'ind_to_poi:index-type', 'ind_to_poi of %s indices differs from the int64 answer by %.3g (%s grid, n=%d)'
+                              % (np.dtype(dt), np.abs(np.asarray(Pd, dtype=float) - P).max(), kind, n))
+            # the prepared option arrays belong to the caller: editing them must not leak into later calls
+            a_, b_, n_ = teneva.grid_prep_opts(a, b, n, d)
+            n_[0] += 8
+            b_[-1] += 2.5
+            a_[0] -= 1.
+            i_after = teneva.poi_to_ind(X, a, b, n, kind)
+            P_after = teneva.ind_to_poi(i_s, a, b, n, kind)
+            ctx.check(np.array_equal(i_after, i_s) and np.array_equal(P_after, P), 'grid_prep_opts:history',
+                      'after the caller edited the arrays returned by grid_prep_opts(a, b, n, d), calls with the same scalar options give other answers (%s grid, n=%d, d=%d)' % (kind, n, d))
         if d >= 2:
             for bad in ([a] * (d + 1), np.array([a] * (d - 1))):
                 raised = False
